@@ -13,7 +13,7 @@ DECIDES = ('the value reaching lru_cache(maxsize=...) is an int for every value 
            'property produces (EV1, AG3); every rational evaluator forwards all of its arguments, **kwargs included, to the same method of its parent (EV2); every `_kv_normalize` guard only adds a [0,1] range check or applies knotvector.normalize to the '
            'stored value (NK1); evaluation start/stop defaults are the domain ends of the same direction (DOM1); serial and parallel branches '
            'apply the same worker to the same arguments through the order-preserving Pool.map, results consumed in order (AG5); a '
-           'sample-size setter/getter pair depends on the same state (UD1).')
+           'sample-size setter/getter pair depends on the same state (UD1). the delta a container derives from a requested sample size is read back as that sample size by its elements (UD2, composition of the two formulas in rational normal form).')
 NOT_DECIDED = 'numerical equality of results across configurations (span functions, evaluator variants, normalised vs raw knot ranges); pickling of workers; process scheduling.'
 TECHNIQUE = 'static kind analysis, signature/key-set agreement, branch equivalence, axis tags'
 
@@ -42,6 +42,7 @@ def check(m, run):
     dom1(m, run)
     ag5(m, run)
     ud1(m, run)
+    ud2(m, run)
     n = ra.ax1_helper_calls(m, run, [fi for fi in m.funcs.values() if fi.mod in ('evaluators', 'helpers', '_operations')])
     run.floor('AX1.helper-call-one-axis', 19, 'per-direction helper calls in evaluators/helpers/_operations')
     from .. import skel_drivers
@@ -405,6 +406,81 @@ def ag5(m, run, rule='AG5.serial-parallel'):
 
 
 # ---------------------------------------------------------------------------------------------- UD1
+def ratio(e, env):
+    """rational normal form (numerator, denominator) of an arithmetic expression; rounding wrappers (int, float, round, math.floor(x + 0.5))
+    are the identity on the integer-valued quantities they are applied to here"""
+    from ..poly import Poly
+    if isinstance(e, ast.Constant) and isinstance(e.value, (int, float)) and not isinstance(e.value, bool):
+        from fractions import Fraction
+        return Poly.const(Fraction(e.value).limit_denominator(10 ** 9)), Poly.const(1)
+    if isinstance(e, ast.Name):
+        if e.id in env:
+            return env[e.id]
+        return Poly.atom(e.id), Poly.const(1)
+    if isinstance(e, (ast.Attribute, ast.Subscript)):
+        t = norm(e)
+        if t in env:
+            return env[t]
+        return Poly.atom(t), Poly.const(1)
+    if isinstance(e, ast.Call):
+        f = norm(e.func)
+        if f in ('int', 'float', 'round', 'math.floor', 'floor') and e.args:
+            a = e.args[0]
+            if f.endswith('floor') and isinstance(a, ast.BinOp) and isinstance(a.op, ast.Add) and isinstance(a.right, ast.Constant) and a.right.value == 0.5:
+                a = a.left
+            return ratio(a, env)
+        raise ValueError('call ' + f)
+    if isinstance(e, ast.BinOp):
+        (an, ad), (bn, bd) = ratio(e.left, env), ratio(e.right, env)
+        if isinstance(e.op, ast.Add):
+            return an * bd + bn * ad, ad * bd
+        if isinstance(e.op, ast.Sub):
+            return an * bd - bn * ad, ad * bd
+        if isinstance(e.op, ast.Mult):
+            return an * bn, ad * bd
+        if isinstance(e.op, ast.Div):
+            return an * bd, ad * bn
+    raise ValueError(type(e).__name__)
+
+
+def ud2(m, run, rule='UD2.container-and-element-count-samples-alike'):
+    """a container pushes its delta to its elements, which evaluate floor(1/delta + 0.5) points per direction (on a unit domain): the
+    delta a container computes from a requested sample size n must be read back as n by the elements - composition of the container's
+    setter formula with the element's getter formula, in rational normal form"""
+    from ..poly import Poly
+    cs = m.cls('multi', 'AbstractContainer').methods.get('_sample_size_setter_common')
+    eg = m.cls('abstract', 'Curve').getters.get('sample_size')
+    if cs is None or eg is None:
+        raise AnalysisError('UD2: container sample size setter / curve sample size getter not found')
+    val = params_of(cs.node)[-1]
+    store = [a for a in walk_no_nested(cs.node) if isinstance(a, ast.Assign) and isinstance(a.targets[0], ast.Subscript) and '_delta' in norm(a.targets[0].value)]
+    if len(store) != 1:
+        raise AnalysisError('UD2: delta store of the container not found')
+    try:
+        dn, dd = ratio(store[0].value, {})
+    except ValueError as ex:
+        raise AnalysisError('UD2: container delta formula not rational (%s)' % ex)
+    rets = [r for r in walk_no_nested(eg.node) if isinstance(r, ast.Return) and r.value is not None]
+    defs = {a.targets[0].id: a.value for a in walk_no_nested(eg.node) if isinstance(a, ast.Assign) and isinstance(a.targets[0], ast.Name)}
+    expr = rets[-1].value
+    for _ in range(4):
+        inner = expr.args[0] if isinstance(expr, ast.Call) and norm(expr.func) in ('int', 'float') and expr.args else expr
+        if isinstance(inner, ast.Name) and inner.id in defs:
+            expr = defs[inner.id]
+        else:
+            break
+    try:
+        gn, gd = ratio(expr, {'self.delta': (dn, dd), 'self._delta[0]': (dn, dd)})
+    except ValueError as ex:
+        raise AnalysisError('UD2: element sample size formula not rational (%s)' % ex)
+    n_ = Poly.atom(val)
+    ok = gn == n_ * gd
+    run.ob(rule, 'multi.AbstractContainer._sample_size_setter_common vs abstract.Curve.sample_size', ok,
+           'an element reads the container delta back as the requested sample size' if ok else
+           'the container stores delta = (%s)/(%s) for a sample size `%s`, which its elements read back as (%s)/(%s) samples: a container asked for n samples '
+           'evaluates a different number of points per element than a single shape asked for n' % (dn, dd, val, gn, gd), site(cs, store[0]))
+
+
 def ud1(m, run, rule='UD1.setter-getter-same-state'):
     """a sample_size getter must depend on the same state as its setter: the setter divides the knot range into delta,
     so the getter must use the knot range to invert it"""
